@@ -3,6 +3,7 @@ CONSTANTS
   Members = {"p", "q", "r"}
   Vals = {1, 2, 3, 4, 5, 6, 7, 8, 9}
   HwMax = 7
+  HwModes = {"clip", "refuse"}
 CONSTRAINT Track
 POSTCONDITION Verdicts
 CHECK_DEADLOCK FALSE
